@@ -3,8 +3,8 @@ package checks
 import (
 	"bufio"
 	"bytes"
-	"encoding/binary"
 	"crypto/sha1"
+	"encoding/binary"
 	"fmt"
 	"os"
 	"os/exec"
